@@ -50,7 +50,9 @@ var (
 		return h
 	}()
 	c18Indexes = []uint32{0, 1, 1 << 31, math.MaxUint32}
-	c18Amounts = []int64{0, 1, 2, math.MaxInt64}
+	// 2^32 rather than 2 as the third amount: it is the value whose low 32 bits are zero, so a
+	// comparator that truncates amounts orders it wrongly (0, 1, 2, max stay ordered under truncation)
+	c18Amounts = []int64{0, 1, 1 << 32, math.MaxInt64}
 	c18Scripts = [][]byte{{}, {0x00}, {0x00, 0x00}, {0x00, 0x01}, {0x01}, {0xff}}
 )
 
